@@ -50,3 +50,12 @@ def far_placeholder_then_backward_empty(fam):
                     (f.get("mode") == "dyn" or (f.get("mode") == "const" and f["size"] == 0)):
                 return True
     return False
+
+
+def element_size_uses_running_index(fam):
+    """A counted sequence whose element size is computed from the length of the list being built."""
+    for _, f in _fields(fam):
+        if "rep" in f and f["t"] == "data" and f.get("mode") == "dyn" and f["size"].get("form") == "lambda" and \
+                isinstance(f["size"].get("e"), list) and f["size"]["e"][:2] == ["b", "add"] and f["size"]["e"][2][:2] == ["u", "len"]:
+            return True
+    return False
